@@ -46,6 +46,11 @@ func TestVerif_C11(t *testing.T) {
 		c.Assume("after an out-of-window frame the client's view of the windows is undefined, so such a frame is always the last event of a sequence")
 		c.Assume("interleavings are explored at event granularity (L2); sends racing with WINDOW_UPDATEs the endpoint emits are therefore always sent after those updates were received")
 		c.Assume("the Transport reports a connection-level FLOW_CONTROL_ERROR by failing the connection (and every pending request/body) with that error; the GOAWAY frame it writes is left in a buffer that is not flushed before the close (RFC 7540 §5.4.1 makes GOAWAY a SHOULD), so the oracle accepts the error code on the wire or as the ClientConn's read-loop error")
+		c.Rule("states = explored event histories (stateless search), transitions = events applied to the real endpoint and checked at quiescence, traces = histories executed to their end")
+		c08Determinism(c, func(w *vx.W, t testing.TB) ([]string, string) {
+			res, herr := c10srvRunCase(w, t, c08srvCase{Cfg: c08srvCfg{Sched: "9218", StrWin: 8}, Evs: []string{"H(-1)", "DR(1,-1,0)", "R(1,1)", "D(1,1,0,0)", "R(1,100)", "DR(1,0,0)", "DR(1,1,0)"}}, c10sMode{id: "C11", enforce: true})
+			return res.trace, herr
+		})
 		c10srvRunParts(c, c10sMode{id: "C11", enforce: true}, c11srvParts(c))
 		c11cliRunParts(c)
 	})
